@@ -62,12 +62,15 @@ LeafSchemas ==
 Leaves == DOMAIN LeafSchemas
 ScalarLeaves == {x \in Leaves : Has(LeafSchemas[x], "type") /\ LeafSchemas[x].type \in {"integer", "number", "string", "boolean"}}
 
-Wrappers == {"top", "opt", "req", "item", "item2", "mapval", "ref_opt", "ref_req", "nullable", "req_ro", "req_default", "allof_prop"}
+Wrappers == {"top", "opt", "req", "item", "item2", "mapval", "ref_opt", "ref_req", "nullable", "req_ro", "req_default", "allof_prop",
+             "alias", "refalias_opt", "refalias_item"}
 
 \* wrappers that only make sense for some leaves
 WrapOK(leaf, w) ==
   CASE w = "req_default" -> leaf \in ScalarLeaves
     [] w = "nullable"    -> leaf \in ScalarLeaves
+    \* a definition that is a bare $ref to another definition, and properties / items reaching it
+    [] w \in {"alias", "refalias_opt", "refalias_item"} -> leaf \in {"obj_req", "obj_map", "int_min", "str_maxlen", "arr_int", "obj_allof", "num_xhi"}
     [] OTHER -> TRUE
 
 DefName(leaf, w) == leaf \o "__" \o w
@@ -85,6 +88,9 @@ Wrap(leaf, w) ==
     [] w = "item"    -> [type |-> "array", items |-> s]
     [] w = "item2"   -> [type |-> "array", items |-> [type |-> "array", items |-> s]]
     [] w = "mapval"  -> [type |-> "object", additionalProperties |-> s]
+    [] w = "alias"   -> [ref |-> LeafDefName(leaf)]
+    [] w = "refalias_opt"  -> [type |-> "object", properties |-> [p |-> [ref |-> DefName(leaf, "alias")]]]
+    [] w = "refalias_item" -> [type |-> "array", items |-> [ref |-> DefName(leaf, "alias")]]
     [] w = "ref_opt" -> [type |-> "object", properties |-> [p |-> [ref |-> LeafDefName(leaf)]]]
     [] w = "ref_req" -> [type |-> "object", required |-> <<"p">>, properties |-> [p |-> [ref |-> LeafDefName(leaf)]]]
     [] w = "nullable"-> [type |-> "object", properties |-> [p |-> Put(s, "x-nullable", TRUE)]]
@@ -113,7 +119,11 @@ SpecialSchemas ==
                        properties |-> [kind |-> [type |-> "string"], name |-> [type |-> "string"]]],
     sp_cat        |-> [allOf |-> <<[ref |-> "sp_pet"], [type |-> "object", properties |-> [claws |-> [type |-> "integer", minimum |-> 2]]]>>],
     sp_dog        |-> [allOf |-> <<[ref |-> "sp_pet"], [type |-> "object", required |-> <<"bark">>, properties |-> [bark |-> [type |-> "string"]]]>>],
-    sp_zoo        |-> [type |-> "object", properties |-> [star |-> [ref |-> "sp_pet"], all |-> [type |-> "array", items |-> [ref |-> "sp_pet"]]]] ]
+    sp_zoo        |-> [type |-> "object", properties |-> [star |-> [ref |-> "sp_pet"], all |-> [type |-> "array", items |-> [ref |-> "sp_pet"]]]],
+    \* a hierarchy whose subtype names its discriminator value with x-class
+    sp_shape      |-> [type |-> "object", discriminator |-> "stype", required |-> <<"stype">>, properties |-> [stype |-> [type |-> "string"], label |-> [type |-> "string"]]],
+    sp_circle     |-> ("allOf" :> <<[ref |-> "sp_shape"], [type |-> "object", properties |-> [radius |-> [type |-> "integer"]]]>>) @@ ("x-class" :> "org.example.Circle"),
+    sp_drawing    |-> [type |-> "object", properties |-> [main |-> [ref |-> "sp_shape"], shapes |-> [type |-> "array", items |-> [ref |-> "sp_shape"]]]] ]
 SpecialNames == DOMAIN SpecialSchemas
 
 Cat(n, c)  == Obj([kind |-> Str("sp_cat"), name |-> Str(n), claws |-> Num(c)])
@@ -135,6 +145,10 @@ SpecialInstances(name) ==
     [] name = "sp_pet" -> {Cat("a", 4), Dog("b", "ab"), Obj([kind |-> Str("sp_cat")]), Obj([name |-> Str("a")])}
     [] name = "sp_cat" -> {Cat("a", 4), Cat("a", 0), Obj([kind |-> Str("sp_cat"), name |-> Str("a")]), Obj([kind |-> Str("sp_cat"), name |-> Str("a"), claws |-> Str("x")])}
     [] name = "sp_dog" -> {Dog("b", "ab"), Obj([kind |-> Str("sp_dog"), name |-> Str("b")])}
+    [] name = "sp_shape" -> {Obj([stype |-> Str("org.example.Circle"), label |-> Str("a"), radius |-> Num(4)]), Obj([label |-> Str("a")])}
+    [] name = "sp_circle" -> {Obj([stype |-> Str("org.example.Circle"), label |-> Str("a"), radius |-> Num(4)]), Obj([stype |-> Str("org.example.Circle")])}
+    [] name = "sp_drawing" -> {Obj(<<>>), Obj([main |-> Obj([stype |-> Str("org.example.Circle"), label |-> Str("a"), radius |-> Num(4)])]),
+                                Obj([shapes |-> Arr(<<Obj([stype |-> Str("org.example.Circle"), radius |-> Num(6)])>>)])}
     [] name = "sp_zoo" -> {Obj(<<>>), Obj([star |-> Cat("a", 4)]), Obj([star |-> Dog("b", "ab"), all |-> Arr(<<Cat("a", 4), Dog("c", "a")>>)]),
                             Obj([all |-> Arr(<<>>)]), Obj([all |-> Arr(<<Cat("a", 6)>>)])}
 
@@ -179,8 +193,9 @@ LeafVals(leaf) ==
 Instances(name) ==
   IF name \in SpecialNames THEN SpecialInstances(name) ELSE
   LET k == KeyOf(name)  leaf == k[1]  w == k[2]  vs == LeafVals(leaf) IN
-  CASE w = "top"   -> vs
-    [] w \in {"opt", "req", "ref_opt", "ref_req", "nullable", "req_ro", "req_default"} ->
+  CASE w \in {"top", "alias"} -> vs
+    [] w = "refalias_item" -> {Arr(<<v>>) : v \in vs} \cup {Arr(<<>>)}
+    [] w \in {"opt", "req", "ref_opt", "ref_req", "nullable", "req_ro", "req_default", "refalias_opt"} ->
          {Obj([p |-> v]) : v \in vs} \cup {Obj(<<>>), Obj([p |-> Null]), Obj([z |-> Num(2)])}
     [] w = "allof_prop" ->
          {Obj([p |-> v]) : v \in vs} \cup {Obj([p |-> v, q |-> Str("a")]) : v \in vs} \cup {Obj(<<>>), Obj([q |-> Str("a")]), Obj([p |-> Null])}
